@@ -1173,3 +1173,295 @@ Proof.
     exists (sc ++ sc2), s2. split; [now rewrite run_app, Hrun|]. split; [exact Hret|].
     rewrite app_length. lia.
 Qed.
+
+(* ====================================================================== *)
+(* Goroutines executing balanced lock paths over one RWMutex                *)
+(* (the synchronized wrappers, the catcher): exclusion state stays          *)
+(* consistent and some goroutine can always move                            *)
+(* ====================================================================== *)
+Definition mem (g : nat) (l : list nat) : bool := existsb (Nat.eqb g) l.
+
+(* what goroutine g holds according to the mutex *)
+Definition held_of (g : nat) (m : rw) : held :=
+  match rw_writer m with
+  | Some w => if Nat.eqb w g then HeldW else if mem g (rw_readers m) then HeldR else Free
+  | None => if mem g (rw_readers m) then HeldR else Free
+  end.
+
+Definition rw_wf (m : rw) : Prop :=
+  (forall w, rw_writer m = Some w -> rw_readers m = []) /\ NoDup (rw_readers m).
+
+Definition rest_ok (h : held) (p : pgor) : Prop :=
+  match ev_run h (pg_defers p) (pg_cur p) with
+  | Some (h', ds) => run_defers h' ds = Some Free
+  | None => False
+  end.
+
+Record PInv (s : psys) : Prop := {
+  pi_wf : rw_wf (ps_rw s);
+  pi_rest : forall g p, nth_error (ps_g s) g = Some p ->
+            rest_ok (held_of g (ps_rw s)) p /\ forallb balanced (pg_todo p) = true;
+  pi_writer : forall w, rw_writer (ps_rw s) = Some w -> (w < length (ps_g s))%nat;
+  pi_readers : forall r, In r (rw_readers (ps_rw s)) -> (r < length (ps_g s))%nat
+}.
+
+Lemma mem_In : forall g l, mem g l = true <-> In g l.
+Proof.
+  intros g l. unfold mem. rewrite existsb_exists. split.
+  - intros [x [Hx E]]. apply Nat.eqb_eq in E. now subst.
+  - intros H. exists g. split; [exact H|apply Nat.eqb_refl].
+Qed.
+
+Lemma mem_remove_one_other : forall g g' l, g' <> g -> mem g' (remove_one g l) = mem g' l.
+Proof.
+  intros g g' l Hne. induction l as [|x l IH]; [reflexivity|]. cbn [remove_one].
+  destruct (Nat.eqb_spec x g) as [->|Hx].
+  - cbn [mem existsb]. destruct (Nat.eqb_spec g' g); [congruence|reflexivity].
+  - unfold mem in *. cbn [existsb]. now rewrite IH.
+Qed.
+
+Lemma In_remove_one : forall g x l, In x (remove_one g l) -> In x l.
+Proof.
+  intros g x l. induction l as [|y l IH]; [auto|]. cbn [remove_one].
+  destruct (Nat.eqb y g); cbn [In]; intuition.
+Qed.
+
+Lemma NoDup_remove_one : forall g l, NoDup l -> NoDup (remove_one g l) /\ mem g (remove_one g l) = false.
+Proof.
+  intros g l H. induction H as [|x l Hx Hl IH]; [split; [constructor|reflexivity]|].
+  cbn [remove_one]. destruct (Nat.eqb_spec x g) as [->|Hne].
+  - split; [exact Hl|]. destruct (mem g l) eqn:E; [|reflexivity]. apply mem_In in E. contradiction.
+  - destruct IH as [IH1 IH2]. split.
+    + constructor; [|exact IH1]. intros Hin. apply Hx. eapply In_remove_one; eauto.
+    + unfold mem in *. cbn [existsb]. rewrite IH2. destruct (Nat.eqb_spec g x); [congruence|reflexivity].
+Qed.
+
+(* one lock event of g on the shared mutex agrees with g's private view *)
+Lemma rw_ev_sim : forall g m e m' ds h' ds',
+  rw_wf m -> rw_event g m e = Some m' -> ev_step (held_of g m) ds e = Some (h', ds') ->
+  held_of g m' = h' /\ rw_wf m' /\ (forall g', g' <> g -> held_of g' m' = held_of g' m) /\
+  (forall w, rw_writer m' = Some w -> w = g \/ rw_writer m = Some w) /\
+  (forall r, In r (rw_readers m') -> r = g \/ In r (rw_readers m)).
+Proof.
+  intros g [w rs] e m' ds h' ds' [Hw Hnd] Hrw Hev. unfold held_of in *. cbn [rw_writer rw_readers] in *.
+  destruct e; cbn [rw_event rw_writer rw_readers] in Hrw.
+  - (* Lock *) destruct w; [discriminate|]. destruct rs; [|discriminate]. inversion Hrw; subst m'.
+    cbn in Hev. inversion Hev; subst. cbn [rw_writer rw_readers mem existsb]. rewrite Nat.eqb_refl.
+    split; [reflexivity|]. split; [split; [reflexivity|constructor]|]. split; [|split].
+    + intros g' Hne. destruct (Nat.eqb_spec g g'); [congruence|reflexivity].
+    + intros w E; inversion E; auto.
+    + intros r [].
+  - (* RLock *) destruct w; [discriminate|]. inversion Hrw; subst m'.
+    destruct (mem g rs) eqn:Em; cbn in Hev; [discriminate|]. inversion Hev; subst.
+    cbn [rw_writer rw_readers]. unfold mem at 1. cbn [existsb]. rewrite Nat.eqb_refl. cbn [orb].
+    split; [reflexivity|]. split; [split; [discriminate|]|]; [|split; [|split]].
+    + constructor; [|exact Hnd]. intros Hin. apply mem_In in Hin. congruence.
+    + intros g' Hne. unfold mem. cbn [existsb]. destruct (Nat.eqb_spec g' g); [congruence|reflexivity].
+    + discriminate.
+    + intros r [<-|Hr]; auto.
+  - (* Unlock *) destruct w as [w|]; [|discriminate]. inversion Hrw; subst m'.
+    pose proof (Hw _ eq_refl) as Hrs. subst rs. cbn [mem existsb] in *.
+    destruct (Nat.eqb_spec w g) as [->|Hne]; cbn in Hev; [|discriminate]. inversion Hev; subst.
+    cbn [rw_writer rw_readers mem existsb].
+    split; [reflexivity|]. split; [split; [discriminate|constructor]|]. split; [|split].
+    + intros g' Hne. destruct (Nat.eqb_spec g g'); [congruence|reflexivity].
+    + discriminate.
+    + intros r [].
+  - (* RUnlock *) fold (mem g rs) in Hrw. destruct (mem g rs) eqn:Em; [|discriminate]. inversion Hrw; subst m'.
+    assert (Hwn : w = None).
+    { destruct w as [w|]; [|reflexivity]. rewrite (Hw _ eq_refl) in Em. discriminate. }
+    subst w. cbn in Hev. inversion Hev; subst. cbn [rw_writer rw_readers].
+    destruct (NoDup_remove_one g rs Hnd) as [N1 N2]. rewrite N2.
+    split; [reflexivity|]. split; [split; [discriminate|exact N1]|]. split; [|split].
+    + intros g' Hne. now rewrite mem_remove_one_other.
+    + discriminate.
+    + intros r Hr. right. eapply In_remove_one; eauto.
+  - (* DeferUnlock *) inversion Hrw; subst m'. cbn [rw_writer rw_readers].
+    assert (E : h' = match w with Some w0 => if Nat.eqb w0 g then HeldW else if mem g rs then HeldR else Free
+                              | None => if mem g rs then HeldR else Free end).
+    { destruct w as [w0|]; [destruct (Nat.eqb w0 g)|]; try destruct (mem g rs); cbn in Hev; inversion Hev; reflexivity. }
+    split; [now symmetry|]. split; [split; assumption|]. split; [reflexivity|]. split; auto.
+  - (* DeferRUnlock *) inversion Hrw; subst m'. cbn [rw_writer rw_readers].
+    assert (E : h' = match w with Some w0 => if Nat.eqb w0 g then HeldW else if mem g rs then HeldR else Free
+                              | None => if mem g rs then HeldR else Free end).
+    { destruct w as [w0|]; [destruct (Nat.eqb w0 g)|]; try destruct (mem g rs); cbn in Hev; inversion Hev; reflexivity. }
+    split; [now symmetry|]. split; [split; assumption|]. split; [reflexivity|]. split; auto.
+Qed.
+
+Lemma PInv_init : forall todo, Forall (fun ps => forallb balanced ps = true) todo -> PInv (pinit todo).
+Proof.
+  intros todo H. constructor; cbn [pinit ps_rw ps_g rw_writer rw_readers].
+  - split; [discriminate|constructor].
+  - intros g p Hn. apply nth_error_In, in_map_iff in Hn. destruct Hn as [t [<- Ht]].
+    split; [reflexivity|]. cbn [pg_todo]. rewrite Forall_forall in H. now apply H.
+  - discriminate.
+  - intros r [].
+Qed.
+
+Definition push_defer (e : lock_event) (ds : list lock_event) : list lock_event :=
+  match e with DeferUnlock => Unlock :: ds | DeferRUnlock => RUnlock :: ds | _ => ds end.
+
+Lemma ev_step_defers : forall h ds e h' d', ev_step h ds e = Some (h', d') -> d' = push_defer e ds.
+Proof. intros h ds e h' d' H. destruct e, h; cbn in H; inversion H; reflexivity. Qed.
+
+Lemma pstep_cur : forall s g e r ds todo s',
+  nth_error (ps_g s) g = Some (mkPG (e :: r) ds todo) -> pstep s g = Some s' ->
+  exists m', rw_event g (ps_rw s) e = Some m' /\
+             s' = mkPS (upd g (mkPG r (push_defer e ds) todo) (ps_g s)) m'.
+Proof.
+  intros s g e r ds todo s' Hn H. unfold pstep in H. rewrite Hn in H. cbn [pg_cur pg_defers pg_todo] in H.
+  destruct e; cbn [push_defer rw_event];
+    try (destruct (rw_event g (ps_rw s) _) as [m'|] eqn:E; [|discriminate]; inversion H; subst;
+         cbn [rw_event] in E; exists m'; split; [exact E|reflexivity]);
+    inversion H; subst; eexists; split; reflexivity.
+Qed.
+
+(* transfer of the invariant to the goroutines other than the one that moved *)
+Lemma PInv_update : forall s g p p' m',
+  PInv s -> nth_error (ps_g s) g = Some p ->
+  rw_wf m' -> rest_ok (held_of g m') p' -> forallb balanced (pg_todo p') = true ->
+  (forall g', g' <> g -> held_of g' m' = held_of g' (ps_rw s)) ->
+  (forall w, rw_writer m' = Some w -> w = g \/ rw_writer (ps_rw s) = Some w) ->
+  (forall r, In r (rw_readers m') -> r = g \/ In r (rw_readers (ps_rw s))) ->
+  PInv (mkPS (upd g p' (ps_g s)) m').
+Proof.
+  intros s g p p' m' I Hn Hwf Hrest Htodo Hoth Hw Hr.
+  assert (Hlt : (g < length (ps_g s))%nat) by (apply nth_error_Some; congruence).
+  constructor; cbn [ps_g ps_rw].
+  - exact Hwf.
+  - intros g' q. rewrite nth_error_upd. destruct (Nat.eqb_spec g g') as [<-|Hne].
+    + rewrite Hn. intros E; inversion E; subst. auto.
+    + intros Hq. rewrite Hoth by congruence. apply (pi_rest _ I _ _ Hq).
+  - intros w E. rewrite length_upd. destruct (Hw _ E) as [->|E']; [exact Hlt|apply (pi_writer _ I _ E')].
+  - intros r E. rewrite length_upd. destruct (Hr _ E) as [->|E']; [exact Hlt|apply (pi_readers _ I _ E')].
+Qed.
+
+Lemma PInv_step : forall s g s', PInv s -> pstep s g = Some s' -> PInv s'.
+Proof.
+  intros s g s' I H. destruct (nth_error (ps_g s) g) as [[cur ds todo]|] eqn:Hn;
+    [|unfold pstep in H; rewrite Hn in H; discriminate].
+  destruct (pi_rest _ I _ _ Hn) as [Hrest Htodo]. cbn [pg_todo] in Htodo.
+  destruct cur as [|e r].
+  - destruct ds as [|e ds].
+    + (* start the next path *)
+      unfold pstep in H. rewrite Hn in H. cbn [pg_cur pg_defers pg_todo] in H.
+      destruct todo as [|nxt more]; [discriminate|]. inversion H; subst s'.
+      unfold rest_ok in Hrest. cbn [pg_cur pg_defers ev_run run_defers] in Hrest.
+      cbn [forallb] in Htodo. apply andb_true_iff in Htodo. destruct Htodo as [Hb Hmore].
+      apply PInv_update with (p := mkPG [] [] (nxt :: more)); auto.
+      * apply (pi_wf _ I).
+      * inversion Hrest as [Hfree]. rewrite Hfree. apply balanced_exec in Hb. unfold exec_path in Hb.
+        unfold rest_ok. cbn [pg_cur pg_defers]. destruct (ev_run Free [] nxt) as [[h' d']|]; [exact Hb|discriminate].
+    + (* returning: run one deferred call *)
+      unfold pstep in H. rewrite Hn in H. cbn [pg_cur pg_defers pg_todo] in H.
+      destruct (rw_event g (ps_rw s) e) as [m'|] eqn:E; [|discriminate]. inversion H; subst s'.
+      unfold rest_ok in Hrest. cbn [pg_cur pg_defers ev_run run_defers] in Hrest.
+      destruct (ev_step (held_of g (ps_rw s)) [] e) as [[h' d']|] eqn:Ev; [|discriminate].
+      destruct (rw_ev_sim _ _ _ _ _ _ _ (pi_wf _ I) E Ev) as [Hh [Hwf [Hoth [Hw Hr]]]].
+      apply PInv_update with (p := mkPG [] (e :: ds) todo); auto.
+      unfold rest_ok. cbn [pg_cur pg_defers ev_run]. now rewrite Hh.
+  - (* an event of the current path *)
+    destruct (pstep_cur _ _ _ _ _ _ _ Hn H) as [m' [E ->]].
+    unfold rest_ok in Hrest. cbn [pg_cur pg_defers ev_run] in Hrest.
+    destruct (ev_step (held_of g (ps_rw s)) ds e) as [[h' d']|] eqn:Ev; [|contradiction].
+    pose proof (ev_step_defers _ _ _ _ _ Ev) as Hd. subst d'.
+    destruct (rw_ev_sim _ _ _ _ _ _ _ (pi_wf _ I) E Ev) as [Hh [Hwf [Hoth [Hw Hr]]]].
+    apply PInv_update with (p := mkPG (e :: r) ds todo); auto.
+    unfold rest_ok. cbn [pg_cur pg_defers]. now rewrite Hh.
+Qed.
+
+Lemma PInv_run : forall sched s s', PInv s -> prun s sched = Some s' -> PInv s'.
+Proof.
+  induction sched as [|g r IH]; intros s s' I H; cbn [prun] in H.
+  - now inversion H; subst.
+  - destruct (pstep s g) as [s1|] eqn:E; [|discriminate]. eapply IH; [|exact H]. eapply PInv_step; eauto.
+Qed.
+
+(* a goroutine whose private view says "can proceed" is enabled on the shared mutex *)
+Lemma enabled_of_rest : forall s g p, PInv s -> nth_error (ps_g s) g = Some p -> pg_finished p = false ->
+  (match rw_writer (ps_rw s) with Some w => w = g | None =>
+     match rw_readers (ps_rw s) with r :: _ => r = g | [] => True end end) ->
+  pstep s g <> None.
+Proof.
+  intros s g [cur ds todo] I Hn Hfin Hown. destruct (pi_rest _ I _ _ Hn) as [Hrest _].
+  destruct (pi_wf _ I) as [Hw Hnd].
+  unfold pstep. rewrite Hn. cbn [pg_cur pg_defers pg_todo]. unfold rest_ok in Hrest. cbn [pg_cur pg_defers] in Hrest.
+  assert (Hev : forall e dd, ev_step (held_of g (ps_rw s)) dd e <> None ->
+                 rw_event g (ps_rw s) e <> None).
+  { intros e dd Hne. unfold held_of in Hne. destruct (ps_rw s) as [w rs]. cbn [rw_writer rw_readers] in *.
+    destruct w as [w|].
+    - subst w. rewrite Nat.eqb_refl in Hne. rewrite (Hw _ eq_refl). destruct e; cbn in *; congruence.
+    - destruct rs as [|r rs].
+      + destruct e; cbn in *; congruence.
+      + subst r. unfold mem in Hne. cbn [existsb] in Hne. rewrite Nat.eqb_refl in Hne. cbn [orb] in Hne.
+        destruct e; cbn [rw_event rw_writer rw_readers existsb] in *; try rewrite Nat.eqb_refl; cbn in *; congruence. }
+  destruct cur as [|e r].
+  - destruct ds as [|e ds].
+    + destruct todo; [discriminate|discriminate].
+    + cbn [ev_run run_defers] in Hrest.
+      destruct (ev_step (held_of g (ps_rw s)) [] e) as [[h' d']|] eqn:Ev; [|discriminate].
+      assert (Hne : rw_event g (ps_rw s) e <> None) by (apply (Hev e []); congruence).
+      destruct (rw_event g (ps_rw s) e); [discriminate|congruence].
+  - cbn [ev_run] in Hrest.
+    destruct (ev_step (held_of g (ps_rw s)) ds e) as [[h' d']|] eqn:Ev; [|contradiction].
+    assert (Hne : rw_event g (ps_rw s) e <> None) by (apply (Hev e ds); congruence).
+    destruct e; try discriminate; destruct (rw_event g (ps_rw s) _); try discriminate; congruence.
+Qed.
+
+Lemma psys_progress : forall s, PInv s ->
+  (exists g p, nth_error (ps_g s) g = Some p /\ pg_finished p = false) ->
+  exists g, pstep s g <> None.
+Proof.
+  intros s I [g0 [p0 [Hn0 Hf0]]].
+  assert (Hheld : forall g p, nth_error (ps_g s) g = Some p -> held_of g (ps_rw s) <> Free -> pg_finished p = false).
+  { intros g [cur ds todo] Hn Hh. destruct (pi_rest _ I _ _ Hn) as [Hrest _]. unfold rest_ok in Hrest.
+    cbn [pg_cur pg_defers] in Hrest. destruct cur; [|reflexivity]. destruct ds; [|reflexivity].
+    cbn [ev_run run_defers] in Hrest. inversion Hrest. congruence. }
+  destruct (rw_writer (ps_rw s)) as [w|] eqn:Ew.
+  - pose proof (pi_writer _ I _ Ew) as Hlt. apply nth_error_Some in Hlt.
+    destruct (nth_error (ps_g s) w) as [p|] eqn:Hn; [|congruence]. exists w.
+    apply enabled_of_rest with p; auto.
+    + apply (Hheld _ _ Hn). unfold held_of. rewrite Ew, Nat.eqb_refl. discriminate.
+    + now rewrite Ew.
+  - destruct (rw_readers (ps_rw s)) as [|r rs] eqn:Er.
+    + exists g0. apply enabled_of_rest with p0; auto. now rewrite Ew, Er.
+    + assert (Hlt : (r < length (ps_g s))%nat) by (apply (pi_readers _ I); rewrite Er; now left).
+      apply nth_error_Some in Hlt. destruct (nth_error (ps_g s) r) as [p|] eqn:Hn; [|congruence]. exists r.
+      apply enabled_of_rest with p; auto.
+      * apply (Hheld _ _ Hn). unfold held_of. rewrite Ew, Er. unfold mem. cbn [existsb]. rewrite Nat.eqb_refl. discriminate.
+      * now rewrite Ew, Er.
+Qed.
+
+(* the two facts together, from the initial state, for every schedule *)
+Lemma psys_safe_and_live : forall todo sched s,
+  Forall (fun ps => forallb balanced ps = true) todo -> prun (pinit todo) sched = Some s ->
+  (* exclusion: a writer excludes everybody else, readers exclude writers *)
+  ((forall w, rw_writer (ps_rw s) = Some w -> rw_readers (ps_rw s) = []) /\
+   (forall w, rw_writer (ps_rw s) = Some w -> (w < length (ps_g s))%nat) /\
+   (forall r, In r (rw_readers (ps_rw s)) -> (r < length (ps_g s))%nat)) /\
+  (* no deadlock *)
+  ((exists g p, nth_error (ps_g s) g = Some p /\ pg_finished p = false) -> exists g, pstep s g <> None) /\
+  (* when everybody has finished the mutex is free *)
+  ((forall g p, nth_error (ps_g s) g = Some p -> pg_finished p = true) ->
+   rw_writer (ps_rw s) = None /\ rw_readers (ps_rw s) = []).
+Proof.
+  intros todo sched s Hb Hrun. pose proof (PInv_run _ _ _ (PInv_init _ Hb) Hrun) as I.
+  split; [|split].
+  - destruct (pi_wf _ I) as [Hw _]. split; [exact Hw|]. split; [apply (pi_writer _ I)|apply (pi_readers _ I)].
+  - apply psys_progress. exact I.
+  - intros Hall.
+    assert (Hfree : forall g p, nth_error (ps_g s) g = Some p -> held_of g (ps_rw s) = Free).
+    { intros g [cur ds td] Hn. pose proof (Hall _ _ Hn) as Hf. unfold pg_finished in Hf. cbn in Hf.
+      destruct cur; [|discriminate]. destruct ds; [|discriminate].
+      destruct (pi_rest _ I _ _ Hn) as [Hrest _]. unfold rest_ok in Hrest. cbn in Hrest. now inversion Hrest. }
+    split.
+    + destruct (rw_writer (ps_rw s)) as [w|] eqn:Ew; [|reflexivity]. exfalso.
+      pose proof (pi_writer _ I _ Ew) as Hlt. apply nth_error_Some in Hlt.
+      destruct (nth_error (ps_g s) w) as [p|] eqn:Hn; [|congruence].
+      pose proof (Hfree _ _ Hn) as Hf. unfold held_of in Hf. rewrite Ew, Nat.eqb_refl in Hf. discriminate.
+    + destruct (rw_readers (ps_rw s)) as [|r rs] eqn:Er; [reflexivity|]. exfalso.
+      assert (Hlt : (r < length (ps_g s))%nat) by (apply (pi_readers _ I); rewrite Er; now left).
+      apply nth_error_Some in Hlt. destruct (nth_error (ps_g s) r) as [p|] eqn:Hn; [|congruence].
+      pose proof (Hfree _ _ Hn) as Hf. unfold held_of in Hf. rewrite Er in Hf. unfold mem in Hf. cbn [existsb] in Hf.
+      rewrite Nat.eqb_refl in Hf. cbn [orb] in Hf. destruct (rw_writer (ps_rw s)) as [w|]; [destruct (Nat.eqb w r)|]; discriminate.
+Qed.
